@@ -87,6 +87,8 @@ def build(img, prof, cap_bytes=None):
                                          level=prof.get("level", 6), max_pos=(P + 1) * K)
         if compressed:
             def tokb(tok, a, n, cell=cell, gbytes=gbytes):  # noqa: E306
+                if tok["k"] != "D":
+                    return None
                 x = tok["c"] * cell + a
                 out = []
                 while n > 0:
